@@ -43,7 +43,7 @@ CHECKS = {
          "Valve challenge echo for all 12^4 words over a boundary byte alphabet at each of info/players/rules with 1-3 rounds (complete log must equal the reference built from what the server issued) plus random words; GameSpy 3 decimal challenges incl. 0/negatives; Java handshake bytes for host-name/protocol/port classes; and for every GAMES entry x port given/omitted x IPv4/IPv6 the destination of every connection and the full request sequence of a valid exchange.",
          "Reference requests from DESIGN Appendix A; Q3 (legacy 1.6 ping payload) asserted loosely, Q6 (Java ping payload) observe-only; default ports taken from the definitions table.", "4 C09"),
  "C10": ("fault_enumeration", "fault injection at the scripted transport: exhaustive per-attempt outcome vectors at every request position; attempts counted on the wire from the transport log",
-         "For 23 retrying subjects (Valve info/players/rules x Enforce/Try x {silent attempt = no reply at all, silent attempt = challenge issued and then silence}, GameSpy 1/2/3, JC2-MP, Quake 1/2/3, Unreal 2 x Enforce/Try, Java, Bedrock, legacy x3, Mindustry, FFOW) and each request position, every outcome vector over {silent, send-fails, malformed, valid}^(r+2), r=0..2 (quick, 336 vectors) / 0..3 (thorough, 1 360 vectors) is injected; attempts, no-retry-after-malformed, result equality with the fault-free run and the failure class are checked from the log and the result.",
+         "For 25 retrying subjects (Valve info/players/rules x Enforce/Try x {silent attempt = no reply at all / challenge issued and then silence / first fragment of a split reply and then silence}, GameSpy 1/2/3, JC2-MP, Quake 1/2/3, Unreal 2 x Enforce/Try, Java, Bedrock, legacy x3, Mindustry, FFOW) and each request position, every outcome vector over {silent, send-fails, malformed, valid}^(r+2), r=0..2 (quick, 336 vectors) / 0..3 (thorough, 1 360 vectors) is injected; attempts, no-retry-after-malformed, result equality with the fault-free run and the failure class are checked from the log and the result.",
          "Attempts identified by the unit's initial request on the wire; one server state per subject and run.", "4 C10"),
  "C11": ("fault_enumeration", "exhaustive configuration x fault matrix on the scripted transport; request kinds taken from the transport log",
          "All 1 440 Valve cells (toggle pairs x section outcomes x app-id relation x check on/off) and 81 Unreal 2 cells (malformed = a datagram of another kind / the right header with an unparsable body / valid datagrams followed by such a one, stratified), each with 60 (quick) / 400 (thorough) random server states: Skip never requests, Try+failure leaves the rest equal to the fault-free response, Enforce+failure fails with the failure's class, BadGame exactly when the check applies and the id is not expected, and nothing is requested after BadGame.",
